@@ -114,11 +114,15 @@ def use_lemma(lemma_fn, s):
 
 
 # ---- ghost state (proof-only; no run-time meaning) -------------------------------------------
+_GHOST = {}
+
+
 def ghost_get(name):
-    return None
+    return _GHOST.get(name)
 
 
 def ghost_set(name, value):
+    _GHOST[name] = value
     return True
 
 
